@@ -6,8 +6,9 @@ PySpark's reading of a builder chain) over Impl/C08Window.lean (the meaning of a
 Full statement (`C08_full_statement`) vs what is proved (`C08_partial`, `C08_partial_rowsEdge`): bottom of the file.
 -/
 import SqlframeModel.Lemmas.C08
+import SqlframeModel.Lemmas.C08Chain
 namespace Sqlframe
-open Sqlframe.Win Sqlframe.Gen.Win
+open Sqlframe.Win Sqlframe.Gen.Win Sqlframe.Gen Sqlframe.Gen.WinChain
 
 /-! ### frame boundaries: every integer -/
 
@@ -246,6 +247,123 @@ theorem C08_anywhere (T : Table) (name : Name) (w : WinDef) (fn : WFn) (hT : T.W
         rw [List.drop_append_of_le_length (by omega), ← hr, List.drop_length]
         rfl
 
+
+/-! ### window columns anywhere in a DataFrame chain
+
+The statement compiled from a chain holds each window function in the select list of one SELECT block, and
+the engine evaluates a block's WHERE before its window functions and its DISTINCT / ORDER BY / LIMIT after
+them — in that order, whatever the order of the calls.  The theorems below are about the model of
+Impl/C08Chain.lean (the open block, `operation.wrapper` with every decision from the regenerated
+`Gen.Operations`, the method tags of `Gen.Methods`, the clause flags of `Gen.Clauses`, the shape of
+`withColumn` / `withColumns` / `_convert_leaf_to_cte` from `Gen.WinChain`). -/
+
+/-- Everything the wrap rule of `operation.wrapper` must guarantee (generated predicate, 81 cases): a call
+    joins the open block only if its clause is not earlier in SQL's clause order than the last one, and two
+    select lists never share a block.  So a `where` after a call that wrote a select list — the place a window
+    function lives — always goes over a CTE of it. -/
+theorem C08_wrap_sound : ∀ last new : Op, wrapCond last new = false →
+    last.toInt ≤ new.toInt ∧ ¬ (last = .select ∧ new = .select) := wrapCond_soundW
+
+/-- the `group_operation` decorator (around `GroupedData.agg`) is generated separately and takes the same decisions
+    as `operation`: a `groupBy(...).agg(...)` after a window column freezes the window's block first -/
+theorem C08_group_decorator_agrees :
+    (∀ l : Op, initCondGroup l = initCond l) ∧ (∀ a b : Op, wrapCondGroup a b = wrapCond a b) ∧
+    (∀ a b : Op, newOpGroup a b = newOp a b) ∧ initResetGroup = initReset ∧ (∀ a b : Op, lastAfterGroup a b = lastAfter a b) :=
+  ⟨initCondGroup_eq, wrapCondGroup_eq, newOpGroup_eq, initResetGroup_eq, lastAfterGroup_eq⟩
+
+/-- `select` and `withColumn` (the calls that add a window column) leave `last_op = SELECT` … -/
+theorem C08_select_family_last (d : WDF) (it : Item) (items : List Item) :
+    (d.apply (.withColumn it)).last = .select ∧ (d.apply (.select items)).last = .select := by
+  constructor
+  · simp only [WDF.apply, tag_withColumn, wrapperW_eq _ (show Op.select ≠ .noOp by decide)]
+  · simp only [WDF.apply, tag_select, wrapperW_eq _ (show Op.select ≠ .noOp by decide)]
+
+/-- … and the next `where` / `filter` freezes that block into a CTE (one more CTE than before; the new block
+    reads the frozen block's *result*) and only then adds its predicate: the filter can never reach the WHERE
+    of the block the window function is in -/
+theorem C08_where_after_select_new_block (d : WDF) (p : Expr) (h : d.last = .select) :
+    (d.apply (.wher p)).ctes = d.ctes + 1 ∧ (d.apply (.wher p)).src = d.eval ∧
+    (d.apply (.wher p)).blk.wher = [p] := by
+  have hi : initCond d.last = false := by rw [h]; decide
+  have hw : wrapCond d.last (newOp .wher d.last) = true := by rw [h]; decide
+  refine ⟨?_, ?_, ?_⟩ <;>
+    simp [WDF.apply, tag_where, wrapperW, hi, hw, bodyWhereW, whereAppend, WDF.wrap, convertLeafFreshSelect]
+
+/-- **Chains.**  For every well-formed table and every chain — of any length and in any order — of `where`,
+    `select`, `withColumn`, `drop`, `distinct`, `orderBy`, `limit` and `groupBy(…).agg(…)` calls whose select items may be window functions
+    (added with `withColumn` or inside `select`, under a new name or replacing a column, several per call or
+    one after the other), the compiled statement returns what the calls mean one after the other: every window
+    function ranges over exactly the rows the calls before it produced, and the calls after it act on its
+    result.  (`ChainOK`: select lists and aggregate lists have distinct names, `orderBy` has a key, no two adjacent `orderBy`.) -/
+theorem C08_chain (T : Table) (steps : List CStep) (hT : T.WF) (hok : ChainOK T false steps) :
+    ((WDF.init T).run steps).eval = specRunW T steps := by
+  have hf := init_freshW T hT
+  have he : (WDF.init T).eval = T := fresh_evalW _ hf
+  have := chain_runW steps (WDF.init T) false hf.inv (fun _ => by simp [WDF.init]) (by rw [he]; exact hok)
+  rw [he] at this
+  exact this.1
+
+/-- the specification's `withColumn(name, fn.over(w))` for a new name is `withWindowColumn` of `C08_anywhere`
+    / `C08_partial`: the column is appended, its values are `windowColumn`'s -/
+theorem zipWith_map_map {α β γ δ} (f : β → γ → δ) (a : α → β) (b : α → γ) : ∀ (l : List α),
+    List.zipWith f (l.map a) (l.map b) = l.map (fun x => f (a x) (b x))
+  | [] => rfl
+  | x :: xs => by simp [zipWith_map_map f a b xs]
+
+theorem C08_window_item_column (T : Table) (name : Name) (w : WinDef) (fn : WFn) (hT : T.WF) (hn : name ∉ T.cols) :
+    specStepW T (.withColumn (.win name w fn)) = withWindowColumn T name w fn := by
+  have hw : withItem T.cols (.win name w fn) = identItems T.cols ++ [.win name w fn] := by
+    simp [withItem, Item.name, hn, Gen.WinChain.withColumnsNewAtEnd]
+  simp only [specStepW, projectW, hw, withWindowColumn, List.map_append, identItems_names, List.map_cons, List.map_nil,
+    Item.name]
+  congr 1
+  have hc : windowColumn T w fn = (tagRows T.rows).map (windowVal T w fn) := rfl
+  rw [hc]
+  conv => rhs; arg 2; rw [← tagRows_snd T.rows]
+  rw [zipWith_map_map]
+  simp only [stSelectW]
+  apply List.map_congr_left
+  intro ir hir
+  simp only [List.map_append, List.map_cons, List.map_nil, itemVal]
+  rw [ident_rowW T ir hT.1 (hT.2 _ (tagRows_mem _ _ hir))]
+
+/-- `withColumn` with a window function (or any item) keeps the shape of the table: the same number of rows, the same
+    columns in the same positions when the name exists (the column is replaced in place), one more column at the end
+    when it is new -/
+theorem C08_withColumn_shape (T : Table) (it : Item) :
+    (specStepW T (.withColumn it)).rows.length = T.rows.length ∧
+    (specStepW T (.withColumn it)).cols = (if it.name ∈ T.cols then T.cols else T.cols ++ [it.name]) := by
+  constructor
+  · simp [specStepW, projectW, stSelectW, tagRows_length]
+  · simp only [specStepW, projectW]
+    exact withItem_names T.cols it
+
+/-- in scope, the engine's reading of the emitted clause is PySpark's window -/
+theorem C08_resolve_agrees (ops : List BOp) (h : SpecInScope ops) : modelResolve ops = sparkDef ops := by
+  obtain ⟨hs, h1, h2, h3, h4, h5⟩ := h
+  cases hw : sparkDef ops with
+  | none => exact absurd hw hs
+  | some w =>
+    unfold modelResolve
+    rw [C08_def_agrees ops w hw h1 h2 h3]
+    unfold H_nonEmptyArgs at h4
+    have h5' : clauseRejected (emit ops) = false := h5
+    simp [h4, h5']
+
+/-- **C08 for chains (proved part).**  For every table and every program of DataFrame calls whose window
+    specs are built by `partitionBy / orderBy / rowsBetween / rangeBetween` calls in the scope of `C08_partial`:
+    what the compiled statement returns on the engine is what PySpark returns for the same calls. -/
+theorem C08_chain_partial (T : Table) (prog : List UStep) (steps : List CStep) (hT : T.WF)
+    (hscope : ∀ ops ∈ progSpecs prog, SpecInScope ops)
+    (hres : resolveSteps sparkDef prog = some steps) (hok : ChainOK T false steps) :
+    modelChain T prog = specChain T prog := by
+  have hr : resolveSteps modelResolve prog = resolveSteps sparkDef prog :=
+    resolveSteps_congr _ _ prog (fun ops ho => C08_resolve_agrees ops (hscope ops ho))
+  unfold modelChain specChain
+  rw [hr, hres]
+  simp only [Option.map_some]
+  rw [C08_chain T steps hT hok]
+
 /-! ### ranking laws (every table, every window) -/
 
 /-- inside each partition `row_number` takes every value 1..n exactly once -/
@@ -373,6 +491,21 @@ theorem C08_cex_nonEmptyArgs : genFlags.partIndexesFirst = true →
     specColumn cexTable [.partitionBy []] (.sum "x") = some [.int 60, .int 60, .int 60] := by
   decide
 
+/-- why the wrap before a `where` is needed: had the filter `id >= 1` joined the block of
+    `withColumn('w', row_number().over(Window.orderBy(col('id').asc())))`, the engine would number only the
+    surviving rows (1, 2) where PySpark numbers all rows and then filters (2, 3) -/
+def cexRowNumber : Item := .win "w" { order := [{ name := "id", desc := false, nullsFirst := true }] } .rowNumber
+def cexFilter : Expr := .bin .ge (.col "id") (.lit (.int 1))
+
+theorem C08_cex_whereInWindowBlock :
+    (evalWBlock { wher := [cexFilter], sel := identItems cexTable.cols ++ [cexRowNumber] } cexTable).rows.map (fun r => r.getLast?)
+      = [some (.int 1), some (.int 2)] ∧
+    (specRunW cexTable [.withColumn cexRowNumber, .wher cexFilter]).rows.map (fun r => r.getLast?)
+      = [some (.int 2), some (.int 3)] ∧
+    ((WDF.init cexTable).run [.withColumn cexRowNumber, .wher cexFilter]).eval
+      = specRunW cexTable [.withColumn cexRowNumber, .wher cexFilter] := by
+  decide
+
 /-! ### non-vacuity: a concrete chain meets every hypothesis of `C08_partial`, and the values are not trivial -/
 
 def exOps : List BOp :=
@@ -394,6 +527,23 @@ example : pysparkStart .range (-9223372036854775807) = some .unboundedPreceding 
 
 example : (List.range 3).map (fun (i : Nat) => Val.int ((i : Int) + 1)) = [.int 1, .int 2, .int 3] := by decide
 
+
+/-- `C08_chain` / `C08_chain_partial` are not vacuous: a filter, a window column, a filter on a passed-through column,
+    a second window over the first, ORDER BY + LIMIT -/
+def exProg : List UStep :=
+  [.wher (.not (.isNull (.col "v"))),
+   .withColumn (.win "w" [.partitionBy ["g"], .orderBy [{ name := "id", form := .asc }]] (.sum "x")),
+   .wher (.bin .ge (.col "id") (.lit (.int 2))),
+   .select [.expr "id" (.col "id"), .expr "w" (.col "w"), .win "w2" [.orderBy [{ name := "w", form := .desc }, { name := "id", form := .asc }]] .rowNumber],
+   .orderBy [{ name := "id", desc := true, nullsFirst := false }], .limit 1,
+   .groupAgg ["id"] [{ name := "m", kind := .max, col := "w2" }]]
+
+example : cexTable.WF ∧ (∀ ops ∈ progSpecs exProg, SpecInScope ops) ∧
+    (∃ steps, resolveSteps sparkDef exProg = some steps ∧ ChainOK cexTable false steps) := by
+  refine ⟨by decide, by decide, _, rfl, by decide⟩
+
+example : specChain cexTable exProg = some { cols := ["id", "m"], rows := [[.int 2, .int 1]] } := by decide
+
 /-! ### the full statement, for the record
 
 C08 as given quantifies over all window specs, the fifteen listed functions and all tables.
@@ -402,8 +552,9 @@ min, max, count, first, last under the four named scope hypotheses (each has a c
 that the check replays on the real code).  NOT covered by a theorem: percent_rank, cume_dist, avg
 (ratios — evaluated by the same model and compared executably only); that DuckDB and Spark evaluate a
 *resolved* window as Impl/C08Window.lean says (assumed; validated by the correspondence stream and
-against live PySpark); order keys and partition keys that are expressions rather than columns;
-what the surrounding DataFrame chain does with the column beyond `C08_anywhere` (C01's subject). -/
+against live PySpark); partition keys that are expressions rather than columns.  What the surrounding DataFrame chain does with
+the column: `C08_chain` / `C08_chain_partial` (where / select / withColumn / drop / distinct / orderBy / limit / groupBy().agg() with sum, min, max, count;
+joins and set operations around a window column are the subject of C02 / C07). -/
 def C08_full_statement : Prop :=
   ∀ (T : Table) (ops : List BOp) (fn : WFn), sparkDef ops ≠ none → modelColumn T ops fn = specColumn T ops fn
 
